@@ -921,6 +921,14 @@ package scipipe
 //@   loop 0 step port-type-and-name-come-from-the-placeholder[C15]: portType == ms[prev($i)][1] && portName == splitOf(ms[prev($i)][2], "|")[0] && p.PortInfo[portName] != nil && p.PortInfo[portName].portType == portType
 //@   loop 1 invariant type-kept: p.PortInfo[portName] != nil && p.PortInfo[portName].portType == portType
 //@   loop 1 step extension-is-the-text-after-the-dot[C15]: forall e string :: part == "." + e && fullMatch(e, "[a-z0-9._\\-]+") ==> p.PortInfo[portName].extension == e
+//@   loop 2 invariant out-ports-made[C15]: forall k string :: $visited[k] && p.PortInfo[k] != nil && (p.PortInfo[k].portType == "o" || p.PortInfo[k].portType == "os") ==> k in p.outPorts
+//@   loop 2 invariant streams-flagged[C15,C17]: forall k string :: $visited[k] && p.PortInfo[k] != nil && p.PortInfo[k].portType == "os" ==> p.PortInfo[k].doStream
+//@   loop 2 invariant in-ports-made[C15]: forall k string :: $visited[k] && p.PortInfo[k] != nil && p.PortInfo[k].portType == "i" ==> k in p.inPorts
+//@   loop 2 invariant param-ports-made[C15]: forall k string :: $visited[k] && p.PortInfo[k] != nil && p.PortInfo[k].portType == "p" && !(k in params) ==> k in p.inParamPorts
+//@   loop 0 invariant stable: p == old(p) && p.PortInfo == old(p.PortInfo)
+//@   loop 1 invariant stable: p == old(p) && p.PortInfo == old(p.PortInfo)
+//@   loop 2 invariant stable: p == old(p) && p.PortInfo == old(p.PortInfo)
+//@   ensures every-placeholder-kind-got-its-port[C15,C17]: forall k string :: k in p.PortInfo && p.PortInfo[k] != nil ==> ((p.PortInfo[k].portType == "o" || p.PortInfo[k].portType == "os") ==> k in p.outPorts) && (p.PortInfo[k].portType == "os" ==> p.PortInfo[k].doStream) && (p.PortInfo[k].portType == "i" ==> k in p.inPorts) && (p.PortInfo[k].portType == "p" && !(k in params) ==> k in p.inParamPorts)
 //@   loop 1 step join-separator-is-whole-text-after-join[C18]: forall a string, b string :: part == a + "join:" + b && fullMatch(a, "[^{}|]*") && !contains(a, "join:") && fullMatch(b, "[^{}|]+") ==> p.PortInfo[portName].join && p.PortInfo[portName].joinSep == b
 // ---------------------------------------------------------------------------
 // C16 / C04: wiring (port.go), readiness (baseprocess.go), starting processes (workflow.go)
@@ -1521,9 +1529,14 @@ package scipipe
 //@   modifies new(BaseIP.path), new(BaseIP.id), new(BaseIP.auditInfo)
 //@   ensures fresh: res != nil && fresh(res) && res.path == path && res.auditInfo == nil
 
+// settings.go getBufsize: reads the environment, changes nothing (the size itself is not relied upon anywhere).
+//@ extern os.LookupEnv(key) (val, ok)
+//@ extern strconv.Atoi(s) (n, err)
+//@ func getBufsize() (res)
+//@   props C04
 //@ func NewInPort(name) (inp)
 //@   props C04
-//@   trusted reads SCIPIPE_BUFSIZE via getBufsize (os.LookupEnv, strconv); only freshness and emptiness of the new port are relied upon
+//@   trusted the composite literal also zero-initialises the embedded close lock (an embedded sub-object whose address is not in the allocation model); only freshness and emptiness of the new port are relied upon
 //@   modifies new(InPort.Chan), new(InPort.name), new(InPort.process), new(InPort.RemotePorts), new(InPort.ready), new(map[string]*OutPort), new(chan)
 //@   ensures fresh: inp != nil && fresh(inp) && inp.Chan != nil && fresh(inp.Chan) && inp.RemotePorts != nil && fresh(inp.RemotePorts) && len(inp.RemotePorts) == 0 && !inp.ready && inp.name == name
 //@   ensures empty-channel: chanSentN(inp.Chan) == 0 && chanRecvN(inp.Chan) == 0 && !chanClosed(inp.Chan)
